@@ -14,6 +14,9 @@ CONSTANTS KnownGJKR,    \* TRUE while "GJKR extraction: an honest party alone fa
                         \* then an honest party returning false is tolerated in dkg / nts runs with a party using the
                         \* library's faulty switch, and the invariants speak about the honest parties that completed
           KnownWithheld,\* TRUE while "a dealer that withholds / stops dealing private shares splits the honest parties" is listed
+          KnownStop,    \* TRUE while "a party that stops part-way in a key generation makes an honest party fail or be disqualified" is listed
+          KeygenStrict, \* TRUE for C15 (every good party must complete the key generation); FALSE for C16, whose claim starts at the
+                        \* signing run: a party whose key generation failed is then simply not among the signers that are judged
           KnownErase   \* TRUE while the finding "party erased from QUAL after the sharing of x" is a listed known finding:
                       \* then, and only in executions where that happened, the check g^x = y is not made
 VARIABLES l, cur, outs        \* cur: the Reset record of the running execution; outs: party -> its Out record
@@ -29,7 +32,11 @@ Parties == 0..(N - 1)
 \* one wrong share, then behaving); 1: the library's built-in faulty behaviour; 2: silent from the start
 Good0 == {i \in Parties : cur.role[i + 1] \in {0, 3}}
 LibFaulty == \E k \in 1..N : cur.role[k] = 1
-Tolerated == {i \in Good0 : KnownGJKR /\ cur.proto \in {"dkg", "nts"} /\ LibFaulty /\ i \in DOMAIN outs /\ ~outs[i].ret}
+Stopper == \E k \in 1..N : cur.role[k] = 4
+Tolerated == {i \in Good0 : i \in DOMAIN outs /\ ~outs[i].ret /\ cur.proto \in {"dkg", "nts", "dss"} /\
+                 (\/ ~KeygenStrict
+                  \/ KnownGJKR /\ cur.proto \in {"dkg", "nts"} /\ LibFaulty
+                  \/ KnownStop /\ Stopper)}
 Good == Good0 \ Tolerated
 Done == DOMAIN outs
 O(i) == outs[i]
